@@ -6,7 +6,7 @@ For each method of `class Model` whose name starts with add_/remove_/update_/sca
                          the first write to one of the model's own containers (`self._x[..] = ..`, `del self._x[..]`,
                          `self._x.pop(..)`)
   * checksBeforeWrites — number of statements that can reject the call (an `if`/`for` containing `raise`, or a call of
-                         `self._check_new_ids`) that precede the first write of any kind
+                         a `self._check_*` helper) that precede the first write of any kind
   * firstWrite         — what the first write touches (ids / own container / a component object / another mutator)
   * delegates          — the public mutators it calls on `self`, in order
 and writes them to Generated/C03Mutators.lean.  `Mxl.C03.step` consults these tables; the theorems in
@@ -73,7 +73,7 @@ def _events_of_expr(node, mutators):
             ev.append((sub.lineno, sub.col_offset, "I"))
         elif name == "_remove_id":
             ev.append((sub.lineno, sub.col_offset, "R"))
-        elif name == "_check_new_ids":
+        elif name is not None and name.startswith("_check_"):
             ev.append((sub.lineno, sub.col_offset, "K"))
         elif name in mutators:
             ev.append((sub.lineno, sub.col_offset, "P:" + name))
@@ -247,7 +247,7 @@ def render(rows) -> str:
         L.append(f"  | .{r['name']} => [" + ", ".join("." + d for d in r["delegates"]) + "]")
     L.append("")
     L.append("/- event strings, for the reader (I=_insert_id R=_remove_id C=container write W=component write")
-    L.append("   G=rejecting statement K=_check_new_ids P:m=call of mutator m):")
+    L.append("   G=rejecting statement K=_check_* helper P:m=call of mutator m):")
     for r in rows:
         L.append(f"   {r['name']}: {' '.join(r['events'])}")
     L.append("-/")
